@@ -155,7 +155,7 @@ impl Property for C09 {
         "case = generated workspace (2-6 files) x setup x initial config, loaded by one batch update, then 1-15 ops from {Update, BatchUpdate, Resubmit, Remove(remove_file_by_uri), Close(update None), Add(file by name), Config(runtime.version / requirePattern / extensions / strict.* / diagnostics.disable / globals)}, then reindex(); oracle: dump(reindexed) == dump(fresh analysis with the final config set first, surviving files registered in ascending old-file-id order, one batch update); a Vfs model written in the check tracks which files survive and in which id order (and is itself compared with the Vfs listing). Config ops are followed by reload_workspace_files(all files) as init_analysis does (judged); with bare_config the re-submission is omitted and a mismatch is only counted (excluded.bare_config_sequence_differs). Cases whose fresh analysis is not reproducible are excluded (C11). non-trivial = history has a Remove/Close or Config and >=2 files survive; distinct = distinct case digest".into()
     }
     fn cases(&self, tier: Tier) -> u32 {
-        tier.pick(3000, 300_000)
+        tier.pick(5000, 300_000)
     }
     fn strategy(&self, tier: Tier) -> BoxedStrategy<Case> {
         (
@@ -309,6 +309,9 @@ fn judge(c: &Case, local: &mut Local, obs: &mut Obs) -> Verdict {
             cands.push(("vfs-model-mismatch".to_string(), format!("Vfs lists {:?}, the model of the history says {:?}", listed, names)));
         }
         cands.extend(hist::dump_candidates("", &want, &got));
+        // the shared classifier names additions-only differences after C08's relation; here they are facts a
+        // fresh analysis does not have
+        let cands: Vec<(String, String)> = cands.into_iter().map(|(s, m)| (s.replace("resubmit-resolves-more", "extra-facts-after-reindex"), m)).collect();
         if let Some((sig, msg)) = hist::select(cands, &local.open) {
             if c.bare_config && has_cfg {
                 return Verdict::Skip("bare_config_sequence_differs".into());
